@@ -128,6 +128,11 @@ Example C01_example_simulated :
   (observed (sub_row sim_g here [] [sim_A; sim_B] 106 84) == 1)%Q /\ (observed (ref_row sim_g here [] [sim_A; sim_B] 106) == 1)%Q.
 Proof. exact sim_example. Qed.
 
+(* The same INSIDE THE CONCRETE STAGE MODELS is stated with those models: the major stage's loop reports the planted multiset of
+   major alleles with score 0 (C02_reported_planted, props/C02_reported.v, relative to the solver contract of C05); every optimum
+   of the minor stage reproduces the planted variants with multiplicity, adds and drops nothing (C04_minor_noise_free,
+   props/C04.v). *)
+
 (* ================================================================= tie to the current source tree
    The decision expressions below are regenerated from /repo's Python AST on every run (harness/gen_exprs.py -> gen/Exprs_cov.v);
    each theorem says that the model's definition IS that expression, for all arguments.  A change of the expression in the code
